@@ -186,6 +186,12 @@ def run(report, p):
                 gl_ = next((a for a in _anc(lp) if isinstance(a, ast.For)), None) if lp is not None else None
                 if ok and gl_ is not None and norm(gl_.iter).endswith(".hash_lists") or (ok and gl_ is not None and "hash_lists" in norm(gl_.iter)):
                     r3.check(is_plain_iter(p, gl_.iter), f, gl_.iter, f"the record that carries the previous path is searched in `{norm(gl_.iter)[:50]}` only, not in every generation: a rename recorded in a generation outside it is not followed and the file is reported as new", construct="previous-path search over part of the generations")
+                    # ... of the history the path is relative to: the path was routed to `<history>`, whose lookup is called; the records of another
+                    # history (the root's, for a file of a nested history) carry names relative to that other history
+                    owner = norm(c.func.value) if isinstance(c.func, ast.Attribute) else None
+                    if owner is not None and is_plain_iter(p, gl_.iter) and norm(gl_.iter).endswith(".hash_lists"):
+                        searched = norm(gl_.iter)[: -len(".hash_lists")]
+                        r3.check(searched == owner, f, gl_.iter, f"the record that carries the previous path is searched in the generations of `{searched}`, but the path is relative to `{owner}` (whose original entry is then looked up): for a file of a nested history the root's records are matched by a path that means another file there - a root file renamed to the same relative name (root/b.txt from c.txt, N/b.txt) makes verify / diff look up `c.txt` in N and report N/b.txt as a new file", construct="previous-path search in another history than the lookup")
             r3.check(ok, f, c, "the original entry is looked up without following the record's previous path (a renamed file would be reported as new / never verified against its first digest)", construct="lookup follows previous_path")
 
     # ------------------------------------------------------------------ R17.4
@@ -415,47 +421,73 @@ def run(report, p):
             passing.add(t.id)
         elif any(_compares_digests(tq) for tq in calls_):
             passing.add(t.id)
-        elif calls_ and not all(p.funcs[tq].cls for tq in calls_):
-            raise AnalysisError(f"{cf.loc(t.ast)}: the helper in `{norm(t.ast)[:60]}` decides whether a pair of the rename matching is compared (judged on the helper-inlined view)")
 
-    def _kind(e, lab):
-        """what taking branch `lab` of test `e` says about the pair: 'just' (the pair cannot be a renamed file of equal content: a directory where the file would
-        have to be read, or sizes that differ), 'fmt0' (the new record has no digest in the recorded format), 'neutral', 'ret' (result variable of an inlined helper),
-        'foreign' (anything else)"""
+    def _alts_of(e, lab, fn, depth=0):
+        """what taking branch `lab` of test `e` (in function `fn`) says about the pair, as a list of alternatives, each a list of (kind, test, label):
+        'just' (sizes differ: the pair cannot be a renamed file of equal content), 'dir' (a directory - justified where the file would have to be read),
+        'fmt0' (the new record has no digest in the recorded format), 'neutral', 'ret' (result variable of an inlined helper), 'foreign' (anything else)"""
         flip = {"T": "F", "F": "T"}
         while isinstance(e, ast.UnaryOp) and isinstance(e.op, ast.Not):
             e, lab = e.operand, flip[lab]
         if isinstance(e, ast.BoolOp):
-            ks = [_kind(v, lab) for v in e.values]
-            flat = [k for sub_ in ks for k in sub_]
+            subs = [_alts_of(v, lab, fn, depth) for v in e.values]
             if (isinstance(e.op, ast.Or) and lab == "F") or (isinstance(e.op, ast.And) and lab == "T"):
-                return flat  # all hold
-            # one of them holds, unknown which: justified only when every alternative is
-            if all(sub_ == ["just"] for sub_ in ks):
-                return ["just"]
-            return ["foreign"] if "foreign" in flat else (["ret"] if "ret" in flat else ["neutral"])
+                out = [[]]
+                for sa_ in subs:  # all hold
+                    out = [x + y for x in out for y in sa_]
+                return out
+            return [a_ for sa_ in subs for a_ in sa_]  # one of them holds, unknown which
+        one = lambda k: [[(k, e, lab)]]
         txt = norm(e)
+        if isinstance(e, ast.Call):
+            tqs = [tq for tq in p.resolve_call(e, fn) if tq in p.funcs and not p.funcs[tq].cls]
+            if len(tqs) == 1 and depth < 2:
+                return _helper_alts(p.funcs[tqs[0]], lab, depth + 1)
         if "is_directory" in txt or "isdir(" in txt:
-            return ["dir" if lab == "T" else "neutral"]
+            return one("dir" if lab == "T" else "neutral")
         if isinstance(e, ast.Compare) and len(e.ops) == 1 and "file_size" in norm(e.left) and "file_size" in norm(e.comparators[0]):
             differs = (isinstance(e.ops[0], ast.NotEq) and lab == "T") or (isinstance(e.ops[0], ast.Eq) and lab == "F")
-            return ["just" if differs else "neutral"]
+            return one("just" if differs else "neutral")
         if isinstance(e, ast.Compare) and len(e.ops) == 1 and isinstance(e.ops[0], (ast.Is, ast.IsNot)) and "file_size" in norm(e.left):
-            return ["neutral"]
+            return one("neutral")
         core = e.left if isinstance(e, ast.Compare) and len(e.ops) == 1 and isinstance(e.ops[0], (ast.Is, ast.IsNot)) and norm(e.comparators[0]) == "None" else e
         if isinstance(core, ast.Name):
             if core.id.startswith("__ret__"):
-                return ["ret"]
+                return one("ret")
             try:
-                os_ = pr.origins(core, cf)
+                os_ = pr.origins(core, fn)
             except AnalysisError:
                 os_ = []
             if os_ and all(o == ("const", None) or is_call(o, "find_hash_entry_for_format") for o in os_):
                 absent = lab == "F" if core is e else ((isinstance(e.ops[0], ast.Is) and lab == "T") or (isinstance(e.ops[0], ast.IsNot) and lab == "F"))
-                return ["fmt0" if absent else "neutral"]
+                return one("fmt0" if absent else "neutral")
             if os_ and all(o == ("const", None) or is_call(o, "find_media_hash_for_path") or is_call(o, "find_or_create_media_hash_for_path") for o in os_):
-                return ["neutral"]
-        return ["foreign"]
+                return one("neutral")
+        return one("foreign")
+
+    def _helper_alts(hf, lab, depth):
+        """the ways in which the helper `hf` returns a true (lab T) / false (lab F) value: one alternative per returning path"""
+        hg = cfg_of(hf)
+        out = []
+        for end, conds, trail in hg.paths([(hg.entry, None, [])], {hg.exit.id}, limit=4000):
+            if end.kind == "raise":
+                continue
+            ret = next((n.ast for n in reversed(trail) if n.ast is not None and isinstance(n.ast, ast.Return)), None)
+            val = ret.value if ret is not None else None
+            cur = [[]]
+            for tast, l_ in conds:
+                if l_ in ("T", "F"):
+                    cur = [x + y for x in cur for y in _alts_of(tast, l_, hf, depth)]
+            if val is None or isinstance(val, ast.Constant):
+                truth = bool(val.value) if val is not None else False
+                if truth != (lab == "T"):
+                    continue
+            else:
+                cur = [x + y for x in cur for y in _alts_of(val, lab, hf, depth)]
+            out += cur
+            if len(out) > 400:
+                raise AnalysisError(f"{hf.loc()}: too many ways through the helper that decides whether a pair of the rename matching is compared")
+        return out
 
     first = gcf.node_for(pl.body[0])
     bad_path = None
@@ -465,19 +497,21 @@ def run(report, p):
             if end.id in passing or end.kind == "raise":
                 continue
             n_paths += 1
-            kinds = []
+            cur = [[]]
             for tast, lab in conds:
                 if lab in ("T", "F"):
-                    kinds += [(k, tast, lab) for k in _kind(tast, lab)]
-            ks = {k for k, _, _ in kinds}
-            justified = "just" in ks or ("dir" in ks and "fmt0" in ks)
-            if justified:
-                continue
-            foreign = [(norm(t_)[:70], l_) for k, t_, l_ in kinds if k in ("foreign", "dir")]
-            if not foreign and "ret" in ks:
-                raise AnalysisError(f"{cf.loc(pl)}: a pair of the rename matching is skipped on the result of an inlined helper that could not be related to its tests")
-            if bad_path is None or len(foreign) > len(bad_path[0]):
-                bad_path = (foreign, trail)
+                    cur = [x + y for x in cur for y in _alts_of(tast, lab, cf)]
+                    if len(cur) > 400:
+                        raise AnalysisError(f"{cf.loc(pl)}: too many alternatives on a path of the pair loop")
+            for alt_ in cur:
+                ks = {k for k, _, _ in alt_}
+                if "just" in ks or ("dir" in ks and "fmt0" in ks):
+                    continue
+                foreign = [(norm(t_)[:70], l_) for k, t_, l_ in alt_ if k in ("foreign", "dir")]
+                if not foreign and "ret" in ks:
+                    raise AnalysisError(f"{cf.loc(pl)}: a pair of the rename matching is skipped on the result of an inlined helper that could not be related to its tests")
+                if bad_path is None or len(foreign) > len(bad_path[0]):
+                    bad_path = (foreign, trail)
     r8.note(f"{n_paths} path(s) through one iteration of the pair loop reach the next pair without a digest comparison")
     if bad_path is not None:
         foreign, trail = bad_path
@@ -485,6 +519,54 @@ def run(report, p):
         r8.check(False, cf, pl, f"a pair of a new path and a missing recorded path is dropped without comparing any digest, and not because the pair cannot match (a directory that would have to be read as a file, two different sizes): {gate}. The property holds for every rename that keeps the content - a renamed file whose bookkeeping differs (touched, copied back, dates recorded by another tool) is then reported missing and recorded as new", witness=gcf.fmt_path(trail), construct="pair skipped without digest comparison")
     else:
         r8.check(True, cf, pl, "")
+
+    # ------------------------------------------------------------------ R17.9
+    r9 = report.rule(
+        "R17.9",
+        "in the pair loop a new path is read as a file (hash_file) only when it is not a directory: every path to the call passes a test that the new path is no directory "
+        "(a new folder without a digest in the recorded format - another -h than the recorded one, -n, a folder inside a nested history - made create -dr abort with "
+        "IsADirectoryError before anything was written)",
+        1,
+    )
+    for call, tg in p.calls[cf.qual]:
+        if not _inside_node(call, pl) or not any(t.split(".")[-1] == "hash_file" for t in tg):
+            continue
+        r9.instance(cf, call, norm(call)[:70])
+        atoms = []
+        for t, l in gcf.necessary_branches(gcf.node_for(call)):
+            if _inside_node(t.ast, pl):
+                atoms += atomic_deps(t.ast, l)
+        no_dir = [a for a, l in atoms if (("isdir(" in a or "is_directory" in a) and l == "F") or ("isfile(" in a and l == "T")]
+        if not no_dir:
+            opaque = [a for a, l in atoms if a.startswith("__ret__") or any(q.split(".")[-1] + "(" in a and any("isdir" in norm(n) or "is_directory" in norm(n) for n in ast.walk(p.funcs[q].node)) for q in p.funcs if not p.funcs[q].cls)]
+            if opaque:
+                raise AnalysisError(f"{cf.loc(call)}: whether `{norm(call)[:50]}` is kept away from directories is decided in `{opaque[0][:50]}`, which this rule does not evaluate")
+        r9.check(bool(no_dir), cf, call, f"`{norm(call)[:60]}` reads the new path as a file for every pair that has no digest in the recorded format, also when the new path is a directory: a tree with a renamed file and a new folder (create -dr with another hash format than the recorded one, or with -n, or any folder inside a nested history) aborts with IsADirectoryError and no generation is written", construct="hash_file on a directory in the rename matching")
+
+    # ------------------------------------------------------------------ R17.10
+    r10 = report.rule(
+        "R17.10",
+        "a name that was given up by a rename can be taken by another file: a lookup of the history that goes through the generations and answers with the FIRST record found "
+        "under a name looks at the record's own path / previous path (the per-manifest index lists a renamed record under its former name too: a hit whose own path differs from "
+        "the name asked for is the record of the file that was renamed AWAY - the records of earlier generations under that name belong to that file, not to the file that "
+        "carries the name now)",
+        2,
+    )
+    hist_cls = next((cq for cq in p.classes if cq.endswith("history.MHLHistory")), None)
+    if hist_cls is None:
+        raise AnalysisError("class MHLHistory not found")
+    for mname, mf in sorted(p.classes[hist_cls].methods.items()):
+        for lp in [n for n in walk_no_nested(mf.node) if isinstance(n, ast.For) and norm(n.iter).endswith("hash_lists")]:
+            looks = [n for n in ast.walk(lp) if isinstance(n, ast.Call) and isinstance(n.func, ast.Attribute) and n.func.attr == "find_media_hash_for_path" and n.args and isinstance(n.args[0], ast.Name) and n.args[0].id in mf.params]
+            first_hit = [n for n in ast.walk(lp) if isinstance(n, ast.Return) and n.value is not None and not (isinstance(n.value, ast.Constant) and n.value.value is None)]
+            if not looks or not first_hit:
+                continue
+            r10.instance(mf, lp, f"{mname}: first record under `{looks[0].args[0].id}` through the generations")
+            recs = {norm(a.targets[0]) for a in ast.walk(lp) if isinstance(a, ast.Assign) and a.value in looks}
+            aware = [n for n in ast.walk(mf.node) if isinstance(n, ast.Attribute) and n.attr in ("path", "previous_path") and norm(n.value) in recs]
+            # any other way of knowing about renames (the rename map, a helper that reads previous_path) counts as well
+            aware += [n for q in p.reachable([mf.qual]) if p.funcs[q].module.name.endswith(("history", "hashlist")) for n in ast.walk(p.funcs[q].node) if isinstance(n, ast.Attribute) and n.attr == "previous_path" and isinstance(n.ctx, ast.Load) and p.funcs[q].name not in ("append_hash", "log", "log_hash_entry")]
+            r10.check(bool(aware), mf, lp, f"{mname} answers with the first record indexed under the name in any generation and never looks at the record's own path or previous path: after a.txt was renamed to b.txt (create -dr) and, one generation later, x.txt was renamed to a.txt, the new a.txt is judged against generation 1's record of the OLD a.txt - create -dr reports a hash mismatch (exit 11) on an unchanged file", construct="first hit by name ignores that the name changed hands")
 
     report.not_decided += ["the pairing produced for concrete sets of simultaneous renames", "renames of folders that contain nested histories"]
 
